@@ -28,11 +28,14 @@ def finAll (D : Defs) : List Tree → Bool
   | t :: ts => fin D t && finAll D ts
 end
 
+/-- the state (identified by its path) is one of the states the transition entered -/
+def inE (E : List Nat) (s : Nat) : Bool := E.contains s
+
 mutual
 /-- the state's own on_final callbacks run in this transition -/
 def fires (D : Defs) (E : List Nat) : Tree → Bool
   | .node s kids =>
-    (D.final s && entered E s) || (!kids.isEmpty && finAll D kids && firesAny D E kids)
+    (D.final s && inE E s) || (!kids.isEmpty && finAll D kids && firesAny D E kids)
 def firesAny (D : Defs) (E : List Nat) : List Tree → Bool
   | [] => false
   | t :: ts => fires D E t || firesAny D E ts
@@ -67,12 +70,12 @@ end
 
 def allIn (E : List Nat) : List Tree → Bool
   | [] => true
-  | t :: ts => entered E t.id && allIn E ts
+  | t :: ts => inE E t.id && allIn E ts
 
 mutual
 /-- entering a state enters every state below it that is active afterwards -/
 def downClosed (E : List Nat) : Tree → Bool
-  | .node s kids => (!entered E s || allIn E kids) && downClosedL E kids
+  | .node s kids => (!inE E s || allIn E kids) && downClosedL E kids
 def downClosedL (E : List Nat) : List Tree → Bool
   | [] => true
   | t :: ts => downClosed E t && downClosedL E ts
@@ -83,6 +86,11 @@ end
 everything active was entered) -/
 def enteredWF (E : List Nat) (roots : List Tree) : Bool :=
   downClosedL E roots && E.all (idsL roots).contains
+
+/-- no entered state shares its state OBJECT with another active state (finding
+F-C18-shared-state-object: `_final_check` recognises "just entered" by object identity) -/
+def noShared (D : Defs) (E : List Nat) (roots : List Tree) : Bool :=
+  E.all fun e => (idsL roots).all fun i => D.obj e != D.obj i || e == i
 
 end Final
 end TM
@@ -109,6 +117,14 @@ def view : List Item → List (Slot × Nat)
   | [] => []
   | .call sl c _ _ _ :: l => if watched sl then (sl, c) :: view l else view l
   | _ :: l => view l
+
+/-- the on_enter / on_final / after callback starts that belong to the event of trigger call `tag` (every
+callback start carries the tag of the call whose event it runs for): what `view` is for an event that runs
+alone, when other events run inside its callbacks or are drained from the queue around it -/
+def ownView (tag : Nat) : List Item → List (Slot × Nat)
+  | [] => []
+  | .call sl c _ t _ :: l => if watched sl && t == tag then (sl, c) :: ownView tag l else ownView tag l
+  | _ :: l => ownView tag l
 
 /-- the callbacks of one list as they show in `view` -/
 def stage (slot : Slot) (cbs : List Nat) : List (Slot × Nat) :=
